@@ -4,17 +4,23 @@
 (* the real CardanoImmutableDigester / CardanoDatabaseSignableBuilder.     *)
 (*                                                                         *)
 (* Event                                                                   *)
-(*  Digest  beacon cache covered res root  (+ descriptive fields: case,    *)
+(*  Digest  op lo beacon cache covered res root                            *)
+(*          (+ descriptive fields: case,                                   *)
 (*          step, kind, via, decoy, entry, other, bad, order, err, pred_ok)  *)
+(*    op       "tree": the Merkle root at `beacon` (lo = 0);               *)
+(*             "range": compute_digests_for_range(lo ..= beacon), `root`   *)
+(*             then is a digest of the returned (file name, digest) entries*)
 (*    covered  the names and content ids of the files                      *)
-(*             <db>/immutable/<n>.<chunk|primary|secondary>, n <= beacon,  *)
-(*             recomputed by the harness from the real directory, sorted   *)
+(*             <db>/immutable/<n>.<chunk|primary|secondary>,               *)
+(*             lo <= n <= beacon, recomputed by the harness from the real  *)
+(*             directory, sorted                                           *)
 (*    cache    the computation consulted a digest cache left by earlier    *)
 (*             computations over the same, unchanged files                 *)
 (*    res      "ok" (root = the Merkle root computed) | "err" | "panic"    *)
 (*                                                                         *)
 (* The property, and nothing else:                                         *)
-(*  Determined  the computed root is a function of `covered` alone --      *)
+(*  Determined  the computed value (per op) is a function of `covered`     *)
+(*              alone --                                                   *)
 (*              whatever the creation order, other files, files beyond the *)
 (*              beacon, entry path, cache history                          *)
 (*  Sensitive   computed without a cache, the root changes whenever a byte *)
@@ -36,18 +42,18 @@ IsEvent(name) == l <= Len(Rec) /\ Rec[l].ev = name /\ Rec[l].seq = l /\ l' = l +
 
 TraceInit == l = 1 /\ seen = {}
 
-Determined(e) == \A s \in seen : s.covered = e.covered => s.root = e.root
+Determined(e) == \A s \in seen : (s.op = e.op /\ s.covered = e.covered) => s.root = e.root
 NamesOf(c)     == {c[i].name : i \in DOMAIN c}
 Perturbs(c, d) == c # d /\ NamesOf(d) \subseteq NamesOf(c)    \* d is c with files changed and / or missing
 Sensitive(e)  == ~e.cache => \A s \in seen :
-                    (~s.cache /\ s.root = e.root) =>
+                    (s.op = e.op /\ ~s.cache /\ s.root = e.root) =>
                         ~Perturbs(s.covered, e.covered) /\ ~Perturbs(e.covered, s.covered)
 
 TDigest ==
     /\ IsEvent("Digest")
     /\ IF E.res = "ok"
        THEN /\ Determined(E) /\ Sensitive(E)
-            /\ seen' = seen \cup {[covered |-> E.covered, root |-> E.root, cache |-> E.cache]}
+            /\ seen' = seen \cup {[op |-> E.op, covered |-> E.covered, root |-> E.root, cache |-> E.cache]}
        ELSE UNCHANGED seen
 
 -----------------------------------------------------------------------------
